@@ -40,6 +40,7 @@ fn run_check(id: &str, tier: Tier) -> Option<Report> {
         "C16" => checks::c16::run(tier),
         "C17" => checks::c17::run(tier),
         "C18" => checks::c18::run(tier),
+        "C19" => checks::c19::run(tier),
         _ => return None,
     })
 }
@@ -64,6 +65,7 @@ fn replay_case(id: &str, case: &Value) -> Option<Vec<Failure>> {
         "C16" => checks::c16::replay(case),
         "C17" => checks::c17::replay(case),
         "C18" => checks::c18::replay(case),
+        "C19" => checks::c19::replay(case),
         _ => return None,
     })
 }
